@@ -25,7 +25,7 @@ LARGE = [('p', 251), ('p', 257), ('p', 65521), ('p', 65537), ('p', 2**61 - 1), (
 
 def shards(tier, seed):
     out = [{'name': f'small-{i}', 'field': list(f), 'mode': 'all'} for i, f in enumerate(SMALL)]
-    out += [{'name': f'large-{i}', 'field': list(f), 'mode': 'random', 'n': 80 if tier == 'quick' else 2000} for i, f in enumerate(LARGE)]
+    out += [{'name': f'large-{i}', 'field': list(f), 'mode': 'random', 'n': 80 if tier == 'quick' else 30000} for i, f in enumerate(LARGE)]
     return out
 
 
